@@ -44,6 +44,7 @@ THEOREMS = [
     "Claripy.Props.C11.C11_child_refines", "Claripy.Props.C11.C11_child_refines_or_gives_up",
     "Claripy.Props.C11.C11_child_step", "Claripy.Solver.cL4_add_spec", "Claripy.Solver.chSimplify_spec",
     "Claripy.Solver.cL4_opt_spec", "Claripy.Props.C11.C11_full_partial",
+    "Claripy.Solver.getSolverG_spec", "Claripy.Solver.tracked_add_sem",
 ]
 TESTS = []
 CLASSES = ["Solver", "SolverCacheless", "SolverStrings"]
